@@ -104,6 +104,9 @@ def attempt_A(a, deflate):
     raise ValueError(kind)
 
 
+# custom request headers: new names, and names the client sends itself (any casing)
+APP_HEADERS = [["X-Token", "abc"], ["Cookie", "sid=1; theme=dark"], ["Authorization", "Bearer t0ken"], ["user-agent", "mine/2"],
+               ["Origin", "http://example.test"], ["X-Token", "second"]]
 PROXY_200 = b"HTTP/1.1 200 Connection established\r\nVia: 1.1 p\r\n\r\n"
 PROXIES = {"http": "http://proxy.test:3128", "https": "http://proxy.test:3128"}
 
@@ -220,8 +223,12 @@ class C17(Prop):
         proxy = gen.weighted([(3, st.none()), (1, st.fixed_dictionaries({
             "b_seg": st.sampled_from(["whole", "bytewise", ["uniform", 20], ["cuts", [12]]]),
             "pcut": st.lists(st.one_of(st.none(), st.integers(1, len(PROXY_200) - 1)), min_size=4, max_size=4)}))])
+        app = gen.weighted([(2, st.none()), (1, st.fixed_dictionaries({
+            "headers": st.lists(st.sampled_from(APP_HEADERS), max_size=3),
+            "protocols": st.sampled_from([[], [], ["chat"], ["chat", "superchat"]]),
+            "agent": st.sampled_from([None, None, "verif-agent/1.0"])}))])
         return st.fixed_dictionaries({"A": st.lists(a, min_size=1, max_size=4), "B": b, "deflate": gen.deflate_opt(),
-                                      "proxy": proxy})
+                                      "proxy": proxy, "app": app})
 
     def enumerations(self, tier):
         def pairs():
@@ -268,7 +275,26 @@ class C17(Prop):
                     yield {"A": [{"kind": "server_close", "frac": 500, "msgs": prev, "end": "eof"},
                                  {"kind": "cut", "frac": 700, "msgs": prev, "end": "reset"}], "B": b0, "deflate": False,
                            "proxy": {"b_seg": b_seg, "pcut": [first, second]}}
+        def configured_objects():
+            # the application configured the object before the first connect(): every kind of previous ending x B
+            b0 = {"msgs": [{"kind": "text", "payload": ["str", "h\u00e9llo"], "frag": [3]}, {"kind": "ping", "payload": ["hex", "01"]}],
+                  "cmask": 0, "viol": None, "close": True, "app_close": None, "timers": False, "idle": 2, "seg": "whole",
+                  "deflate": False}
+            prev = [{"kind": "text", "payload": ["str", "prev"], "frag": [2]}]
+            apps = [{"headers": [APP_HEADERS[0]], "protocols": [], "agent": None},
+                    {"headers": APP_HEADERS[1:4], "protocols": ["chat", "superchat"], "agent": "verif-agent/1.0"},
+                    {"headers": [], "protocols": ["chat"], "agent": "verif-agent/1.0"},
+                    {"headers": [APP_HEADERS[0], APP_HEADERS[5]], "protocols": [], "agent": None}]
+            for kind in A_KINDS:
+                for app in apps:
+                    for deflate in (False, True):
+                        yield {"A": [{"kind": kind, "frac": 500, "msgs": prev, "end": "eof"}], "B": dict(b0, deflate=deflate),
+                               "deflate": deflate, "app": app}
+                        yield {"A": [{"kind": kind, "frac": 500, "msgs": prev, "end": "eof"},
+                                     {"kind": "server_close", "frac": 500, "msgs": prev, "end": "reset"}],
+                               "B": dict(b0, deflate=deflate), "deflate": deflate, "app": app}
         return [Enumeration("every_abnormal_ending_x_B", pairs, exhaustive=True),
+                Enumeration("objects_configured_by_the_application", configured_objects, exhaustive=True),
                 Enumeration("chains_through_a_proxy", proxied, exhaustive=True),
                 Enumeration("generator_of_the_abandoned_connection_finalised_late", held_generators, exhaustive=True)]
 
@@ -286,6 +312,16 @@ class C17(Prop):
         n = len(atts)
         keys = ["%032x" % (0x1000 + i) for i in range(n + 2)]
         ws_opts = {"compress": True} if (deflate or deflate_b) else None
+        app = case.get("app")
+        if app:
+            # what the application configured on the object once (custom request headers, sub-protocols, agent)
+            ws_opts = dict(ws_opts or {})
+            if app.get("headers"):
+                ws_opts["headers"] = [[n.encode().hex(), v.encode().hex()] for n, v in app["headers"]]
+            if app.get("protocols"):
+                ws_opts["protocols"] = list(app["protocols"])
+            if app.get("agent"):
+                ws_opts["agent"] = app["agent"]
         proxy = case.get("proxy")
         if proxy:
             ws_opts = dict(ws_opts or {}, proxies=PROXIES)
